@@ -450,8 +450,9 @@ func runReadHit(c *Ctx, r *RuleRun) {
 		r.Undecided("-", "anchors", "", "DB.search / types.IsSameKey / types.Value / levelManager.searchLowerBound not found")
 		return
 	}
-	sameKeyFact := func(ins ssa.Instruction) bool {
-		return boolFactIs(ins, func(v ssa.Value) bool {
+	var sameKeyFactD func(ins ssa.Instruction, depth int) bool
+	sameKeyFactD = func(ins ssa.Instruction, depth int) bool {
+		if boolFactIs(ins, func(v ssa.Value) bool {
 			call := callTo(p, v, isSame)
 			if call == nil {
 				return false
@@ -460,8 +461,41 @@ func runReadHit(c *Ctx, r *RuleRun) {
 			_, p0 := call.Call.Args[0].(*ssa.Parameter)
 			_, p1 := call.Call.Args[1].(*ssa.Parameter)
 			return p0 != p1
+		}, true) {
+			return true
+		}
+		if depth > 1 {
+			return false
+		}
+		// the "found" result of a helper of the package whose own found-returns all carry the same-key test
+		return boolFactIs(ins, func(v ssa.Value) bool {
+			ex, ok := v.(*ssa.Extract)
+			if !ok || ex.Index != 1 {
+				return false
+			}
+			cl, ok := ex.Tuple.(*ssa.Call)
+			if !ok {
+				return false
+			}
+			h := cl.Call.StaticCallee()
+			if h == nil || !isEntryLookup(p, h) || h.Pkg != search.Pkg {
+				return false
+			}
+			all, n := true, 0
+			eachInstr(h, func(i2 ssa.Instruction) {
+				ret, ok := i2.(*ssa.Return)
+				if !ok || len(ret.Results) != 2 || isConstBool(retOperand(ret, 1), false) {
+					return
+				}
+				n++
+				if !sameKeyFactD(ret, depth+1) {
+					all = false
+				}
+			})
+			return all && n > 0
 		}, true)
 	}
+	sameKeyFact := func(ins ssa.Instruction) bool { return sameKeyFactD(ins, 0) }
 	// DB.search: found-returns
 	eachInstr(search, func(ins ssa.Instruction) {
 		ret, ok := ins.(*ssa.Return)
@@ -512,9 +546,26 @@ func runReadHit(c *Ctx, r *RuleRun) {
 	// Txn.Get buffer hit: tombstone in the own write buffer means not found
 	get := p.Fn("", "Txn", "Get")
 	if get != nil {
+		isTomb := func(v ssa.Value) bool {
+			if fv, _ := loadedField(v); fv == tomb {
+				return true
+			}
+			if fx, ok := v.(*ssa.Field); ok {
+				return fx.X.Type().Underlying().(*types.Struct).Field(fx.Field) == tomb
+			}
+			return false
+		}
 		eachInstr(get, func(ins ssa.Instruction) {
 			ret, ok := ins.(*ssa.Return)
-			if !ok || !isConstBool(retOperand(ret, 1), true) {
+			if !ok || len(ret.Results) != 2 {
+				return
+			}
+			// `return v.Value, !v.Tombstone` says the same thing as the guarded form
+			if u, isNot := retOperand(ret, 1).(*ssa.UnOp); isNot && u.Op == token.NOT && isTomb(u.X) {
+				r.Hold(p.FnName(get), "own delete reads as not found", p.Pos(instrPos(ret)), "found = !Tombstone of the buffered entry")
+				return
+			}
+			if !isConstBool(retOperand(ret, 1), true) {
 				return
 			}
 			g := hasFact(ret, func(cm Cmp) bool {
